@@ -382,7 +382,7 @@ func phaseWorker(args []string) int {
 	}
 
 	// hooks: ledger lines for what the notifier does + the crash plan
-	var inTarget atomic.Bool
+	var inTarget, stopping atomic.Bool
 	var occ atomic.Int32
 	hit := func() bool { return int(occ.Add(1)) == max(plan.Occ, 1) }
 	rec := &sched.Recorder{OnHook: func(name string, a []any) error {
@@ -436,8 +436,25 @@ func phaseWorker(args []string) int {
 				led.Log("crash-armed backoff %s %s", sub, ref)
 				time.AfterFunc(delayOf[sub], func() { kill("backoff " + sub + " " + ref) })
 			}
+			if plan.Point == "shutdown" && matchSub(sub) && matchRef(ref) && hit() {
+				// graceful stop instead of a crash: the notifiers are closed (as Network.Shutdown does) when the retry loop is about to sleep
+				led.Log("shutdown %s %s", sub, ref)
+				for _, n := range st.Notifiers() {
+					_ = n.Close()
+				}
+				stopping.Store(true)
+			}
 		case "dag.notify.finished":
 			sub, ref := a[0].(string), a[1].(hash.SHA256Hash).String()
+			if persistent[sub] {
+				// the hook does not see the result of the delete (it fails when the notifier was closed meanwhile): look at the shelf
+				if sh, err := readShelf(db, sub); err != nil {
+					break
+				} else if _, on := sh[ref]; on {
+					led.Log("finish-failed %s %s", sub, ref)
+					break
+				}
+			}
 			led.Log("finished %s %s", sub, ref)
 			if plan.Point == "finished" && matchSub(sub) && matchRef(ref) && hit() {
 				kill("finished " + sub + " " + ref)
@@ -506,6 +523,9 @@ func phaseWorker(args []string) int {
 			if stepDone[i] {
 				continue
 			}
+			if stopping.Load() {
+				break
+			}
 			tx := txs[s.Tx]
 			spec := sc.Txs[s.Tx]
 			switch s.Op {
@@ -517,6 +537,9 @@ func phaseWorker(args []string) int {
 				led.Log("add-begin %s %d %v", tx.Ref(), i, payload != nil)
 				if err := st.Add(ctx, tx, payload); err != nil {
 					led.Log("add-err %s %s", tx.Ref(), strings.ReplaceAll(err.Error(), " ", "_"))
+					if stopping.Load() {
+						break
+					}
 					return 3
 				}
 				led.Log("add-ok %s", tx.Ref())
@@ -530,6 +553,9 @@ func phaseWorker(args []string) int {
 				led.Log("wp-begin %s %s %d", tx.Ref(), s.Op, i)
 				if err := st.WritePayload(ctx, tx, tx.PayloadHash(), spec.Payload); err != nil {
 					led.Log("wp-err %s %s", tx.Ref(), strings.ReplaceAll(err.Error(), " ", "_"))
+					if stopping.Load() {
+						break
+					}
 					return 3
 				}
 				led.Log("wp-ok %s %s", tx.Ref(), s.Op)
@@ -574,6 +600,10 @@ func phaseWorker(args []string) int {
 	for {
 		quiet := !notifierGoroutines()
 		observe()
+		if quiet && stopping.Load() {
+			led.Log("stopped") // closed notifiers: what is pending stays pending until the next start
+			break
+		}
 		if quiet {
 			led.Log("quiescent")
 			break
@@ -586,7 +616,7 @@ func phaseWorker(args []string) int {
 		time.Sleep(2 * time.Millisecond)
 	}
 	logShelves("end-shelf")
-	if plan.Point != "" {
+	if plan.Point != "" && !stopping.Load() {
 		led.Log("crash-not-reached %s", plan.Point)
 	}
 	for _, n := range st.Notifiers() {
@@ -600,7 +630,7 @@ func phaseWorker(args []string) int {
 
 // ---- scenario generator ---------------------------------------------------------------------------------------
 
-var crashPoints = []string{"none", "inwrite", "committed", "wp-inwrite", "wp-committed", "returned-ok", "returned-fail", "recorded", "backoff", "finished"}
+var crashPoints = []string{"none", "inwrite", "committed", "wp-inwrite", "wp-committed", "returned-ok", "returned-fail", "recorded", "backoff", "finished", "shutdown"}
 
 func genScenario(rnd *rand.Rand, seed int64, idx int, maxTx int) *scenario {
 	sc := &scenario{Index: idx, Scripts: map[string]script{}, Continue: rnd.Intn(2) == 0}
@@ -825,6 +855,9 @@ func planFor(sc *scenario, point string, rnd *rand.Rand) crashPlan {
 		// the first retry follows the first attempt immediately, the loop sleeps after the second recorded failure
 		o := 2 + rnd.Intn(len(vdr.Seq)-1)
 		return crashPlan{Point: "backoff", Tx: 1, Sub: "vdr", Occ: o, Note: vdr.at(o - 1)}
+	case "shutdown":
+		o := 2 + rnd.Intn(len(vdr.Seq)-1)
+		return crashPlan{Point: "shutdown", Tx: 1, Sub: "vdr", Occ: o, Note: vdr.at(o - 1)}
 	case "finished":
 		if nats, scripted := sc.Scripts["nats|1|payload"]; rnd.Intn(2) == 0 && (!scripted || eventuallyOK(nats)) {
 			return crashPlan{Point: "finished", Tx: 1, Sub: "nats", Occ: 1}
@@ -940,17 +973,19 @@ func runCase(sc *scenario, name string) *caseResult {
 		case wr.ExitCode != 0:
 			end = "broken"
 			res.broken = fmt.Sprintf("phase %d exit %d: %s", p, wr.ExitCode, tail(wr.Output))
-		default:
-			if plan.Point != "" {
-				res.reached = false
-			}
 		}
-		res.phaseEnd = append(res.phaseEnd, end)
 		for i, ln := range worker.ReadLedger(ledgerPath(dir, p)) {
 			if f := strings.Fields(ln); len(f) > 0 {
 				res.lines = append(res.lines, line{p, i, f})
+				if f[0] == "crash-not-reached" {
+					res.reached = false
+				}
+				if f[0] == "stopped" && end == "clean" {
+					end = "stopped"
+				}
 			}
 		}
+		res.phaseEnd = append(res.phaseEnd, end)
 		if end == "broken" {
 			break
 		}
@@ -1052,7 +1087,7 @@ func evaluate(r *ev.Run, c *caseResult) {
 	addBegins := map[string][]line{}   // ref ; f[3] = with payload
 	inRun := ""
 	runDoneSeq := map[string]int{} // phase|sub -> ledger position of run-done
-	var order []string // keys in order of first appearance
+	var order []string             // keys in order of first appearance
 	for _, l := range c.lines {
 		f := l.f
 		ph := phases[l.phase]
@@ -1160,6 +1195,12 @@ func evaluate(r *ev.Run, c *caseResult) {
 	pending, completed := 0, 0
 	for _, s := range sc.Subs {
 		if !s.Persistent {
+			// contrast: a subscriber without persistency loses what was admitted but not delivered when the process died
+			for i := range sc.Txs {
+				if fin.dag[sc.Txs[i].Ref] && selects(s.Filter, &sc.Txs[i], dag.TransactionEventType) && len(recvs[s.Name+"|"+sc.Txs[i].Ref+"|"+dag.TransactionEventType]) == 0 {
+					r.Count("events_never_delivered_to_nonpersistent_subscriber", 1)
+				}
+			}
 			continue
 		}
 		for i := range sc.Txs {
@@ -1172,6 +1213,11 @@ func evaluate(r *ev.Run, c *caseResult) {
 				// one shelf key for the transaction event and the payload event of the same transaction: outside the text
 				if fin.payload[ref] {
 					r.Unspecified("subscriber-selects-both-event-types-of-one-tx")
+				}
+				// whatever the type: something about an admitted transaction was delivered, or is still on the shelf
+				n := len(recvs[s.Name+"|"+ref+"|"+dag.TransactionEventType]) + len(recvs[s.Name+"|"+ref+"|"+dag.PayloadEventType])
+				if _, onShelf := fin.shelf[s.Name][ref]; n == 0 && !onShelf {
+					viol("vanished/any/"+c.points, fmt.Sprintf("no event of admitted %s was ever delivered to persistent subscriber %s (no type filter) and none is on its shelf", ref, s.Name), ref, s.Name)
 				}
 				continue
 			}
@@ -1400,7 +1446,8 @@ func TestCheck(t *testing.T) {
 	defer r.Finish()
 	r.SetRule("cases = seeded scenario (5-14 transactions, thorough up to 30: public/private, DID/VC/other payloads, payload with the Add, written later, written by the private receiver, never, " +
 		"written twice; 6-7 subscribers with scripted receivers) x every crash point of {none, inside the admission write, after commit before notify, inside/after the WritePayload write, " +
-		"receiver returned true before completion marking, receiver returned failure before recording, failure recorded, during back-off, after completion marking} " +
+		"receiver returned true before completion marking, receiver returned failure before recording, failure recorded, during back-off, after completion marking, " +
+		"graceful Close of the notifiers at the start of a back-off} " +
 		"(+ per scenario one double crash: second SIGKILL during the start-up replay). Each case = 2-3 worker processes on one data directory; the oracle runs over the merged ledgers and the final store. " +
 		"A case is non-trivial when its crash point was reached, the final DAG is not empty and persistent subscribers received deliveries; distinct by (crash points, crash target, scenario).")
 	r.Require(r.Pick(100, 800), r.Pick(60, 500))
@@ -1486,11 +1533,15 @@ func TestCheck(t *testing.T) {
 				r.Count("kills", 1)
 				r.Count("kill_at_"+l.f[1], 1)
 			}
+			if l.f[0] == "shutdown" {
+				r.Count("graceful_stops_during_backoff", 1)
+			}
 		}
 		tgt := sc.Phases[0]
 		fpr := fmt.Sprintf("%s|%s|%d|%s|%d|s%d", c.points, tgt.Sub, tgt.Occ, tgt.Note, tgt.Op, sc.Index)
 		r.Case(fpr, c.reached && !inconclusive && len(c.fin.dag) > 0 && persistentDeliveries > 0)
 		r.Distinct("crash_point_sequences", c.points)
+		r.Distinct("crash_point_x_target_behaviour", c.points+"|"+tgt.Sub+"|"+tgt.Note)
 		r.Sample(map[string]any{"case": c.name, "transactions": len(sc.Txs), "steps": len(sc.Steps), "subscribers": len(sc.Subs), "crash_plans": sc.Phases,
 			"phase_ends": c.phaseEnd, "continue_after_restart": sc.Continue, "ledger_lines": len(c.lines), "in_dag_at_end": len(c.fin.dag), "deliveries_to_persistent": persistentDeliveries})
 	}
